@@ -179,13 +179,13 @@ class LinearReconstructEveryK(TimeStepFilter):
         time_indices = jnp.zeros(shape=(self._time_steps_max,), dtype=jnp.int32)
         time_indices = time_indices.at[self._save_time_steps].set(index_tmp)
         for _ in range(self.k - 1):
-            rolled = jnp.roll(time_indices, 1)
+            # forward-fill without wrap-around (the entry rolled in from the end is dropped)
+            rolled = jnp.roll(time_indices, 1).at[0].set(0)
             time_indices = jnp.where(
                 time_indices == 0,
                 rolled,
                 time_indices,
             )
-            time_indices = time_indices.at[: self.k].set(0)
         self = self.aset("_time_to_arr_idx", time_indices, create_new_ok=True)
         return self, self._array_size, input_shape_dtypes, {}
 
@@ -237,8 +237,10 @@ class LinearReconstructEveryK(TimeStepFilter):
         def linear_reconstruct():
             arr_idx = arr_indices[0]
 
-            prev_save_time = index_1d_array(self._time_to_arr_idx, arr_idx)
-            next_save_time = index_1d_array(self._time_to_arr_idx, arr_idx + 1)
+            # array index -> saved time step (the index table is 0 for every step before the first saved one,
+            # so searching it for arr_idx 0 finds step 0, not start_recording_after)
+            prev_save_time = self._save_time_steps[arr_idx]
+            next_save_time = self._save_time_steps[arr_idx + 1]
             interp_factor = (time_idx - prev_save_time) / (next_save_time - prev_save_time)
 
             prev_vals, next_vals = values[0], values[1]
